@@ -4,6 +4,8 @@
 //
 // stdin, one request per line:
 //   M seed feat nbody variant       model + random state -> mj_forward -> dump (see below) -> mj_step
+//       dump: C per control (ctrllimited lo hi ctrl), O per output (length velocity force), A per actuator, T tendons,
+//       MOM nout x nv moment, DOF per dof, Q qfrc_actuator, AD act_dot, N act after the step
 //   G len vel lr0 lr1 acc0 prm[9]   mju_muscleGain
 //   B len lr0 lr1 acc0 prm[9]       mju_muscleBias
 //   D ctrl act p0 p1 p2             mju_muscleDynamics
@@ -45,6 +47,43 @@ static void model_case(unsigned long long seed, unsigned feat, int nbody, int va
     if (a->dyntype != mjDYN_NONE) a->actearly = mjg_chance(r, 0.5);
     if (mjg_chance(r, 0.3)) { a->forcelimited = mjLIMITED_TRUE; a->forcerange[0] = -mjg_range(r, 0.1, 1); a->forcerange[1] = mjg_range(r, 0.1, 1); }
   }
+  // multi-output actuator in the middle of the list: an SO3 orientation servo (3 outputs, 3 or 4 controls)
+  // on its own ball joint, declared AFTER the generated scalars and BEFORE force-limited scalar motors and
+  // the muscles, so that actuator index, control index and output index all differ for what follows
+  int with_so3 = (variant % 3 != 1);
+  if (with_so3) {
+    mjsBody* sb = mjs_addBody(mjs_findBody(s, "world"), NULL); mjs_setName(sb->element, "so3body");
+    sb->pos[0] = -1.5; sb->pos[2] = 0.7;
+    mjsJoint* bj = mjs_addJoint(sb, NULL); bj->type = mjJNT_BALL; mjs_setName(bj->element, "so3ball");
+    mjsGeom* bg = mjs_addGeom(sb, NULL); bg->type = mjGEOM_BOX; bg->size[0] = 0.05; bg->size[1] = 0.08; bg->size[2] = 0.11;
+    bg->contype = 0; bg->conaffinity = 0;
+    int nso3 = 1 + (variant % 5 == 0);
+    for (int k = 0; k < nso3; k++) {
+      mjsActuator* a = mjs_addActuator(s, NULL);
+      char nmb[32]; snprintf(nmb, sizeof(nmb), "so3_%d", k); mjs_setName(a->element, nmb);
+      double kv = mjg_range(r, 0, 2);
+      int chart = mjg_chance(r, 0.5) ? mjCHART_EXPMAP : mjCHART_QUAT;
+      mjs_setToOrientation(a, mjg_range(r, 1, 30), &kv, NULL, chart);
+      a->trntype = mjTRN_JOINT; mjs_setString(a->target, "so3ball");
+      a->group = mjg_int(r, 4);
+      if (mjg_chance(r, 0.5)) { a->forcelimited = mjLIMITED_TRUE; a->forcerange[0] = 0; a->forcerange[1] = mjg_range(r, 0.5, 6); }
+    }
+    if (nscal > 0) {
+      int nafter = 1 + mjg_int(r, 3);
+      for (int k = 0; k < nafter; k++) {
+        mjsActuator* a = mjs_addActuator(s, NULL);
+        char nmb[32]; snprintf(nmb, sizeof(nmb), "after%d", k); mjs_setName(a->element, nmb);
+        a->trntype = mjTRN_JOINT;
+        mjs_setString(a->target, mjs_getString(mjs_getName(scal[mjg_int(r, nscal)]->element)));
+        mjs_setToMotor(a);
+        a->gainprm[0] = mjg_range(r, 0.5, 3);
+        a->gear[0] = mjg_range(r, 0.5, 2);
+        a->group = 10 + k;      // never disabled by the masks below
+        if (k == 0 || mjg_chance(r, 0.6)) { a->forcelimited = mjLIMITED_TRUE; a->forcerange[0] = -mjg_range(r, 0.2, 2); a->forcerange[1] = mjg_range(r, 0.2, 2) + 3 * k; }
+        if (mjg_chance(r, 0.3)) { a->ctrllimited = mjLIMITED_TRUE; a->ctrlrange[0] = -mjg_range(r, 2, 6); a->ctrlrange[1] = mjg_range(r, 2, 6); }
+      }
+    }
+  }
   if (nscal > 0 && (variant % 2 == 0)) {
     int nm = 1 + mjg_int(r, 2);
     for (int k = 0; k < nm; k++) {
@@ -71,56 +110,81 @@ static void model_case(unsigned long long seed, unsigned feat, int nbody, int va
   if (variant % 7 == 3) {
     // corpus family: a disabled actuator whose forcerange does not contain 0
     mjsActuator* a = mjs_asActuator(mjs_firstElement(s, mjOBJ_ACTUATOR));
-    if (a) { a->forcelimited = mjLIMITED_TRUE; a->forcerange[0] = 0.25; a->forcerange[1] = 1.25; a->group = 1; mask |= 2; }
+    if (a && a->gaintype != mjGAIN_SO3) { a->forcelimited = mjLIMITED_TRUE; a->forcerange[0] = 0.25; a->forcerange[1] = 1.25; a->group = 1; mask |= 2; }
   }
   s->option.disableactuator = mask;
   int noclamp = mjg_chance(r, 0.15);
   if (noclamp) s->option.disableflags |= mjDSBL_CLAMPCTRL;
+  int actoff = (variant % 11 == 5);
+  if (actoff) s->option.disableflags |= mjDSBL_ACTUATION;
   mjModel* m = mj_compile(s, NULL);
-  if (!m) { printf("M ERR %s\n", mjs_getError(s)); mj_deleteSpec(s); return; }
+  if (!m) {
+    char e[400]; snprintf(e, sizeof(e), "%s", mjs_getError(s));
+    for (char* c = e; *c; c++) if (*c == '\n' || *c == '\r') *c = ' ';
+    printf("M ERR %s\n", e); mj_deleteSpec(s); return;
+  }
   mjData* d = mj_makeData(m);
   mjg_random_state(m, d, r, 1.0);
-  for (int i = 0; i < m->nu; i++) {
-    if (m->actuator_dyntype[i] == mjDYN_MUSCLE) { d->ctrl[i] = mjg_range(r, -0.5, 1.5); }
-    else if (mjg_chance(r, 0.3)) d->ctrl[i] = mjg_range(r, -4, 4);
+  int nact = m->nactuator, nu = m->nu, nout = m->nout, nv = m->nv, na = m->na, nt = m->ntendon;
+  for (int i = 0; i < nact; i++) {
+    int c = m->actuator_ctrladr[i];
+    if (m->actuator_gaintype[i] == mjGAIN_SO3) {
+      for (int k = 0; k < m->actuator_ctrlnum[i]; k++) d->ctrl[c + k] = mjg_range(r, -2, 2);
+      if (mjg_chance(r, 0.1)) for (int k = 0; k < m->actuator_ctrlnum[i]; k++) d->ctrl[c + k] = 0;
+      continue;
+    }
+    if (m->actuator_dyntype[i] == mjDYN_MUSCLE) { d->ctrl[c] = mjg_range(r, -0.5, 1.5); }
+    else if (mjg_chance(r, 0.4)) d->ctrl[c] = mjg_range(r, -8, 8);      // saturating controls
     if (m->actuator_actnum[i] == 1 && m->actuator_dyntype[i] == mjDYN_MUSCLE) d->act[m->actuator_actadr[i]] = mjg_range(r, -0.2, 1.2);
   }
-  int nu = m->nu, nv = m->nv, na = m->na, nt = m->ntendon;
-  // supported subset of the model
-  int ok = (m->nactuator == nu) && (m->nout == nu);
-  for (int i = 0; i < nu && ok; i++) {
-    ok = m->actuator_dyntype[i] <= mjDYN_MUSCLE && m->actuator_gaintype[i] <= mjGAIN_MUSCLE && m->actuator_biastype[i] <= mjBIAS_MUSCLE &&
-         m->actuator_delay[i] == 0 && m->actuator_ctrlnum[i] == 1 && m->actuator_outnum[i] == 1 && m->actuator_actnum[i] <= 1 &&
-         m->actuator_plugin[i] < 0 && m->actuator_ctrladr[i] == i && m->actuator_outadr[i] == i && wrapPeriod(m, i) == 0;
+  // supported subset of the model; the output layout must be the cumulative one
+  int ok = nact > 0, ocum = 0, ccum = 0;
+  for (int i = 0; i < nact && ok; i++) {
+    int so3 = m->actuator_gaintype[i] == mjGAIN_SO3;
+    ok = m->actuator_delay[i] == 0 && m->actuator_plugin[i] < 0 && m->actuator_outadr[i] == ocum && m->actuator_ctrladr[i] == ccum &&
+         wrapPeriod(m, i) == 0;
+    if (so3) ok = ok && m->actuator_biastype[i] == mjBIAS_SO3 && m->actuator_dyntype[i] == mjDYN_NONE && m->actuator_actnum[i] == 0 &&
+                  m->actuator_outnum[i] == 3 && (m->actuator_ctrlspec[i] == mjCHART_EXPMAP || m->actuator_ctrlspec[i] == mjCHART_QUAT) &&
+                  m->actuator_ctrlnum[i] == (m->actuator_ctrlspec[i] == mjCHART_QUAT ? 4 : 3);
+    else ok = ok && m->actuator_dyntype[i] <= mjDYN_MUSCLE && m->actuator_gaintype[i] <= mjGAIN_MUSCLE && m->actuator_biastype[i] <= mjBIAS_MUSCLE &&
+                   m->actuator_ctrlnum[i] == 1 && m->actuator_outnum[i] == 1 && m->actuator_actnum[i] <= 1;
+    ocum += m->actuator_outnum[i]; ccum += m->actuator_ctrlnum[i];
   }
-  if (!ok || nu == 0) { printf("M SKIP nu %d\n", nu); mj_deleteData(d); mj_deleteModel(m); mj_deleteSpec(s); return; }
+  ok = ok && ocum == nout && ccum == nu;
+  if (!ok) { printf("M SKIP nact %d\n", nact); mj_deleteData(d); mj_deleteModel(m); mj_deleteSpec(s); return; }
+  for (int i = 0; i < na; i++) d->act_dot[i] = 7.25 + i;      // stale values must not survive mj_fwdActuation
   mj_forward(m, d);
-  printf("M OK nu %d nv %d na %d nt %d h %a mask %d noclamp %d\n", nu, nv, na, nt, m->opt.timestep, m->opt.disableactuator, noclamp);
-  for (int i = 0; i < nu; i++) {
-    int adr = m->actuator_actadr[i], num = m->actuator_actnum[i];
+  printf("M OK nact %d nu %d nout %d nv %d na %d nt %d h %a mask %d noclamp %d actoff %d\n", nact, nu, nout, nv, na, nt,
+         m->opt.timestep, m->opt.disableactuator, noclamp, actoff);
+  printf("C");
+  for (int c = 0; c < nu; c++) { printf(" %d", m->actuator_ctrllimited[c]); pv(m->actuator_ctrlrange + 2 * c, 2); pv(d->ctrl + c, 1); }
+  printf("\n");
+  printf("O");
+  for (int o = 0; o < nout; o++) { pv(d->actuator_length + o, 1); pv(d->actuator_velocity + o, 1); pv(d->actuator_force + o, 1); }
+  printf("\n");
+  for (int i = 0; i < nact; i++) {
+    int adr = m->actuator_actadr[i], num = m->actuator_actnum[i], o = m->actuator_outadr[i];
     printf("A %d %d %d", m->actuator_dyntype[i], m->actuator_gaintype[i], m->actuator_biastype[i]);
     pv(m->actuator_dynprm + mjNDYN * i, 3); pv(m->actuator_gainprm + mjNGAIN * i, 9); pv(m->actuator_biasprm + mjNBIAS * i, 9);
-    printf(" %d", m->actuator_ctrllimited[i]); pv(m->actuator_ctrlrange + 2 * i, 2);
     printf(" %d", m->actuator_forcelimited[i]); pv(m->actuator_forcerange + 2 * i, 2);
     printf(" %d", m->actuator_actlimited[i]); pv(m->actuator_actrange + 2 * i, 2);
     printf(" %d %d %d %d", m->actuator_actearly[i], m->actuator_group[i], num, adr);
-    pv(m->actuator_lengthrange + 2 * i, 2); pv(m->actuator_acc0 + i, 1);
+    pv(m->actuator_lengthrange + 2 * o, 2); pv(m->actuator_acc0 + o, 1);
     printf(" %d", m->actuator_trntype[i] == mjTRN_TENDON ? m->actuator_trnid[2 * i] : -1);
+    printf(" %d %d %d %d %d", m->actuator_ctrladr[i], m->actuator_ctrlnum[i], m->actuator_ctrlspec[i], o, m->actuator_outnum[i]);
     mjtNum zero = 0;
-    pv(d->ctrl + i, 1); pv(num ? d->act + adr : &zero, 1); pv(d->actuator_length + i, 1); pv(d->actuator_velocity + i, 1);
-    pv(num ? d->act_dot + adr : &zero, 1); pv(d->actuator_force + i, 1);
+    pv(num ? d->act + adr : &zero, 1); pv(num ? d->act_dot + adr : &zero, 1);
     printf("\n");
   }
   printf("T");
   for (int t = 0; t < nt; t++) { printf(" %d", m->tendon_actfrclimited[t]); pv(m->tendon_actfrcrange + 2 * t, 2); }
   printf("\n");
-  mjtNum* dense = (mjtNum*)calloc((size_t)nu * nv + 1, sizeof(mjtNum));
-  // accumulate (a tendon wrapping the same joint twice yields a row with a repeated column index, which
-  // mju_sparse2dense would overwrite instead of summing)
-  for (int i = 0; i < nu; i++)
+  mjtNum* dense = (mjtNum*)calloc((size_t)nout * nv + 1, sizeof(mjtNum));
+  // accumulate (mju_sparse2dense overwrites on a repeated column index)
+  for (int i = 0; i < nout; i++)
     for (int k = 0; k < d->moment_rownnz[i]; k++)
       dense[i * nv + d->moment_colind[d->moment_rowadr[i] + k]] += d->actuator_moment[d->moment_rowadr[i] + k];
-  printf("MOM"); pv(dense, nu * nv); printf("\n");
+  printf("MOM"); pv(dense, nout * nv); printf("\n");
   free(dense);
   // per-dof post-processing data
   int gc = m->flg_gravcomp && !(m->opt.disableflags & mjDSBL_GRAVITY) && mju_norm3(m->opt.gravity) != 0;
@@ -133,11 +197,9 @@ static void model_case(unsigned long long seed, unsigned feat, int nbody, int va
   }
   printf("\n");
   printf("Q"); pv(d->qfrc_actuator, nv); printf("\n");
-  mjtNum* act0 = (mjtNum*)calloc(na + 1, sizeof(mjtNum));
-  mju_copy(act0, d->act, na);
+  printf("AD"); pv(d->act_dot, na); printf("\n");
   mj_step(m, d);
   printf("N"); pv(d->act, na); printf("\n");
-  free(act0);
   mj_deleteData(d); mj_deleteModel(m); mj_deleteSpec(s);
 }
 
